@@ -207,6 +207,9 @@ def base_case(rng, kind=None):
         c["noise"] = True
     elif kind == "reg":
         c["h"], c["prox"], c["lh"] = 1, 1, enc(0.1 * math.sqrt(n))
+        # part of the base problem (overridden when the case itself sets the key): S-FISTA with its default 500 inner iterations
+        # costs ~0.4 s per solve, which is what the quick tier cannot afford 200 times
+        c["up_base"] = [["func_tol.max_iters", enc(25)]]
     elif kind == "proj":
         c["proj"] = "ball"
     return c
@@ -219,9 +222,14 @@ def build_call(case, counter=None):
     A = r.normal(size=(m, n)) + (np.eye(m, n) * 2.0)
     b = r.normal(size=m)
 
+    sigma = case.get("osigma", 0.0)
+    rr = np.random.default_rng([case["oseed"], 1])
+
     def objfun(x):
         if counter is not None:
             counter[0] += 1
+        if sigma:
+            return A.dot(x) - b + sigma * rr.normal(size=m)      # a genuinely noisy objective (restart heuristics need one)
         return A.dot(x) - b
 
     x0 = np.array(case["x0"], dtype=float)
@@ -247,8 +255,10 @@ def build_call(case, counter=None):
     for nm in ("npt", "rhobeg", "rhoend", "maxfun"):
         if case[nm] != ABSENT:
             kw[nm] = dec(case[nm])
-    if case["up"] is not None:
-        kw["user_params"] = dict((k, dec(v)) for k, v in case["up"])
+    if case["up"] is not None or case.get("up_base"):
+        own = case["up"] or []
+        kw["user_params"] = dict([(k, dec(v)) for k, v in case.get("up_base", []) if k not in [kk for kk, _ in own]] +
+                                 [(k, dec(v)) for k, v in own])
     if case["noise"]:
         kw["objfun_has_noise"] = True
     if case["scaling"]:
@@ -619,10 +629,11 @@ def all_param_cases(ctx, suite, per_key_cats=None, kinds=None, boundary_on_all_k
             if per_key_cats is not None and cat not in per_key_cats:
                 continue
             if boundary_on_all_kinds and cat in ("boundary-lower", "boundary-upper"):
-                for kk, ks in enumerate(BOUNDARY_KINDS):
-                    c = with_param(np.random.default_rng([ctx.seed, suite, ki, ci, kk]), key, cat, ks)
-                    if c is not None:
-                        out.append(c)
+                for rep in range(ctx.scale(2, 4)):
+                    for kk, ks in enumerate(BOUNDARY_KINDS):
+                        c = with_param(np.random.default_rng([ctx.seed, suite, ki, ci, kk, rep]), key, cat, ks)
+                        if c is not None:
+                            out.append(c)
                 continue
             rng = np.random.default_rng([ctx.seed, suite, ki, ci])
             c = with_param(rng, key, cat, kinds)
@@ -861,6 +872,16 @@ NAMED = {("slow.history_for_slow=0", "ZeroDivisionError"): "C07:history_for_slow
          ("tr_radius.alpha1=1.0", "nontermination"): "C07:alpha1-1.0-nontermination"}
 
 
+def input_class(tag):
+    """param:<key>:<category>[:cross-option] -> param:<category>; combo:<keys> -> combo; everything else unchanged"""
+    p = tag.split(":")
+    if p[0] == "param":
+        return "param:" + ":".join(p[2:])
+    if p[0] == "combo":
+        return "combo"
+    return tag
+
+
 def crash_signature(case, failure):
     """stable signature of a crash / hang on documented input: names the boundary value(s) responsible when there are any"""
     cul = boundary_culprits(case)
@@ -897,7 +918,7 @@ def check_case(dfols, case, alarm=10):
         sig = crash_signature(case, "nontermination")
         if sig is not None and expect == "valid":
             return (sig, "solve did not return within %g s with the accepted boundary value(s) %s (%s)" % (alarm, ", ".join(boundary_culprits(case)), tag))
-        return ("C07:nontermination:" + tag, "solve did not return within %g s (%s, expected %s)" % (alarm, tag, expect))
+        return ("C07:nontermination:" + input_class(tag), "solve did not return within %g s (%s, expected %s)" % (alarm, tag, expect))
     if kind == "raise":
         msg = str(obj)
         if expect == "invalid":
@@ -908,14 +929,14 @@ def check_case(dfols, case, alarm=10):
         sig = crash_signature(case, exc)
         if sig is not None:
             return (sig, "the accepted boundary value(s) %s raised %s(%s) (%s)" % (", ".join(boundary_culprits(case)), exc, msg[:120], tag))
-        return ("C07:valid-input-raises:%s:%s" % (tag, exc), "documented input (%s) raised %s(%s)" % (tag, exc, msg[:160]))
+        return ("C07:valid-input-raises:%s:%s" % (input_class(tag), exc), "documented input (%s) raised %s(%s)" % (tag, exc, msg[:160]))
     return check_result(obj, real, case, counter, expect)
 
 
 def check_result(soln, real, case, counter, expect):
     tag = case["tag"]
     if soln.flag not in DOCUMENTED_FLAGS:
-        return ("C07:undocumented-flag:%s" % soln.flag, "flag %r is not the value of any exit constant named in the user guide (%s)" % (soln.flag, tag))
+        return ("C07:undocumented-flag:%s" % soln.flag, "flag %r (%s) is not the value of any exit constant named in the user guide (%s)" % (soln.flag, soln.msg[:60], tag))
     if not isinstance(soln.msg, str) or len(soln.msg) == 0:
         return ("C07:empty-message", "msg = %r (%s)" % (soln.msg, tag))
     if " str=0 " in real:
@@ -923,9 +944,9 @@ def check_result(soln, real, case, counter, expect):
     if soln.flag == INPUT_ERROR and (soln.nf != 0 or soln.nx != 0 or counter[0] != 0):
         return ("C07:input-error-nonzero-counters", "input-error result with nf=%r nx=%r, objfun called %d times (%s)" % (soln.nf, soln.nx, counter[0], tag))
     if expect == "invalid" and soln.flag != INPUT_ERROR:
-        return ("C07:invalid-accepted:" + tag, "invalid input (%s) was accepted: flag %d, %s" % (tag, soln.flag, soln.msg[:80]))
+        return ("C07:invalid-accepted:" + input_class(tag), "invalid input (%s) was accepted: flag %d, %s" % (tag, soln.flag, soln.msg[:80]))
     if expect == "valid" and soln.flag == INPUT_ERROR:
-        return ("C07:valid-rejected:" + tag, "documented input (%s) was rejected: %s" % (tag, soln.msg[:120]))
+        return ("C07:valid-rejected:" + input_class(tag), "documented input (%s) was rejected: %s" % (tag, soln.msg[:120]))
     missing = [nm for nm in GUIDE_EXITS if not hasattr(soln, nm)]
     if missing:
         return ("C07:result-lacks-exit-constants:" + "+".join(missing),
@@ -948,7 +969,9 @@ def search_cases(ctx, round_):
     for mm in getattr(ctx, "_c07_mism", [])[:40]:
         cases.append(mm["case"])
     cases += arg_cases(np.random.default_rng([ctx.seed, 750 + round_]))
-    cases += all_param_cases(ctx, 760 + round_, per_key_cats=None if (ctx.thorough() or round_ > 0) else QUICK_CATS, boundary_on_all_kinds=True)
+    pc = all_param_cases(ctx, 760 + round_, per_key_cats=None if (ctx.thorough() or round_ > 0) else QUICK_CATS, boundary_on_all_kinds=True)
+    # accepted boundary values first (that is where documented inputs crash), then the rest
+    cases += [c for c in pc if ":boundary-" in c["tag"]] + [c for c in pc if ":boundary-" not in c["tag"]]
     for i in range(ctx.scale(60, 1500)):
         cases.append(random_combo(np.random.default_rng([ctx.seed, 770 + round_, i])))
     # projections with npt != n+1 / several sets (known limitation: RuntimeError in the initial directions)
@@ -960,6 +983,16 @@ def search_cases(ctx, round_):
         if rng.random() < 0.5:
             c["x0"] = (np.array(c["x0"]) / max(np.linalg.norm(c["x0"]), 1e-9) * 50.0).tolist()     # on the curved boundary
         c["tag"], c["expect"] = "projections:npt-n+1+%d" % (dec(c["npt"]) - c["n"] - 1), "valid"
+        cases.append(c)
+    # noisy objective, hard restarts, eager auto-detection: the exits that only restarts produce (flags 3 and 4)
+    for i in range(ctx.scale(40, 400)):
+        rng = np.random.default_rng([ctx.seed, 790 + round_, i])
+        c = base_case(rng, "noise")
+        c["osigma"] = float(10.0 ** rng.uniform(-6, -1))
+        c["maxfun"] = enc(int(rng.integers(15, 80)))
+        c["up"] = [["restarts.use_soft_restarts", enc(bool(rng.random() < 0.3))], ["restarts.auto_detect.history", enc(int(rng.integers(2, 8)))],
+                   ["restarts.auto_detect.min_correl", enc(0.0)], ["restarts.auto_detect.min_chgJ_slope", enc(0.0)]]
+        c["tag"], c["expect"] = "restarts:auto-detect", "valid"
         cases.append(c)
     return cases
 
